@@ -188,6 +188,7 @@ def problem(draw):
     pool = minerals + [u[0] for u in user_phases] * 3
     ntrue = draw(W([(1, 1), (3, 2), (3, 3), (2, 4), (1, 5)]))
     chosen = draw(st.lists(st.sampled_from(pool), min_size=ntrue, max_size=ntrue, unique=True))
+    chosen = independent_subset(chosen, user_phases)      # no polymorph pairs etc. among the true reactants (see inverse_part)
     true = {}
     eq = []
     use_eq = draw(W([(3, False), (1, True)]))
@@ -275,7 +276,7 @@ def inverse_part(draw, nsol, true, user_phases, present, flavour, decoy_pool):
     allp = draw(st.permutations(kept))
     for p in allp[:12]:
         a = true.get(p)
-        mode = draw(W([(3, ""), (3, "ok"), (1, "bad")]))
+        mode = draw(W([(4, ""), (4, "ok"), (1, "bad")]))
         con = ""
         if mode == "ok" and a is not None:
             con = "dis" if a > 0 else "pre"
